@@ -17,7 +17,8 @@ LEVEL = 'exploration'
 RULE = ('family "catalog": every catalogue design (C07/C08/C09/C14 grids + extras) x all input vectors (corner alphabet above 8 input '
         'bits), 2 clk per vector for sequential designs, every wire of the hierarchy checked after simulator creation and after each '
         'clk, inside a listener and in a Waveform watching all wires; family "extremes": Constant / Sequence / Reg.reset_value / '
-        'memory data / Wire.put / Wire.prepare / BidirWire with every value in [-2**w-1, 2**w+1] for w <= W. non-trivial = '
+        'memory data / Wire.put / Wire.prepare / BidirWire with every value in [-2**w-1, 2**w+1] for w <= W and with boundary values at the '
+        'special widths 8,16,31..33,63..65,128 (thorough: also 7,9,15,17,127,129). non-trivial = '
         'evaluation in which some wire is non-zero')
 ASSUMPTIONS = ['the observation points are those of the statement: after simulator creation, after any clock call, inside listeners, waveform samples',
                'values poked by the harness itself go through Wire.put (the public way to drive an undriven wire)']
@@ -31,6 +32,9 @@ def shards(tier):
     out = [{'tier': tier, 'family': 'catalog', 'lo': i, 'hi': min(n, i + CHUNK)} for i in range(0, n, CHUNK)]
     for w in range(1, (6 if tier == 'thorough' else 3) + 1):
         out.append({'tier': tier, 'family': 'extremes', 'w': w})
+    # widths around the sizes that invite special-casing (bytes, machine words): boundary values only
+    for w in ([7, 8, 9, 15, 16, 17, 31, 32, 33, 63, 64, 65, 127, 128, 129] if tier == 'thorough' else [8, 16, 31, 32, 33, 63, 64, 65, 128]):
+        out.append({'tier': tier, 'family': 'extremes', 'w': w, 'boundary': True})
     return out
 
 
@@ -137,8 +141,13 @@ class PutBlock(py4hw.Logic):
 
 def run_extremes(d, res):
     w = d['w']
-    vals = list(range(-(1 << w) - 1, (1 << w) + 2))
-    desc0 = {'family': 'extremes', 'w': w}
+    if d.get('boundary'):
+        M = 1 << w
+        vals = sorted({-M - 1, -M, -M + 1, -(M >> 1) - 1, -(M >> 1), -2, -1, 0, 1, 2, (M >> 1) - 1, M >> 1, M - 2, M - 1, M, M + 1,
+                       (M << 4) - 1, (M << 4), M | 1, M * 3 + 5})
+    else:
+        vals = list(range(-(1 << w) - 1, (1 << w) + 2))
+    desc0 = {'family': 'extremes', 'w': w, 'boundary': bool(d.get('boundary'))}
 
     def run(kind, v, build):
         desc = dict(desc0, kind=kind, value=v)
@@ -193,6 +202,18 @@ def run_extremes(d, res):
             py4hw.Constant(hw, 'kwd', v, wd)
             py4hw.SynchronousMemory(hw, 'm', ra, wa, wr, rd, wd)
         run('memory_wider_writedata', v, mem)
+
+        def comb_ops(hw):
+            a, b = hw.wire('a', w), hw.wire('b', w)
+            py4hw.Constant(hw, 'ka', v, a)
+            py4hw.Constant(hw, 'kb', 1, b)
+            py4hw.Not(hw, 'n', a, hw.wire('nr', w))
+            py4hw.Sub(hw, 's', b, a, hw.wire('sr', w))
+            py4hw.Add(hw, 'ad', a, a, hw.wire('ar', w))
+            py4hw.Mul(hw, 'm', a, a, hw.wire('mr', w))
+            py4hw.ShiftLeftConstant(hw, 'sl', a, 3, hw.wire('slr', w))
+            py4hw.Neg(hw, 'g', a, hw.wire('gr', w))
+        run('comb_ops', v, comb_ops)
 
         def wide_to_narrow(hw):
             a = hw.wire('a', w + 2)
@@ -253,6 +274,6 @@ def replay(v):
             sim.clk(1)
             bad = bad or bad_wires(wires)
         return {'design': d, 'violates': bool(bad), 'bad': bad[:4]}
-    run_extremes({'w': d['w']}, res)
+    run_extremes({'w': d['w'], 'boundary': d.get('boundary')}, res)
     hit = [x for x in res['violations'] if x['sig'] == v['sig']]
     return {'design': d, 'violates': bool(hit), 'detail': hit[:1]}
